@@ -99,7 +99,7 @@ theorem ginv_step (g : Graph) (op : Op) (hG : GraphInv g) (ha : admissible g op 
           omega
   | setname slot n => exact ginv_withSlot_nattach hG (fun n => by split <;> rfl)
   | setclass slot n => exact ginv_withSlot_nattach hG (fun n => by split <;> rfl)
-  | addtagref slot t r => exact ginv_withSlot_nattach hG (fun n => by split <;> rfl)
+  | addtagref slot t r => exact ginv_withSlot_nattach hG (fun n => by split; rfl; split <;> rfl)
   | insertvg slot slot2 =>
     simp only [gstep]
     cases alook slot2 g.slots with
@@ -110,7 +110,7 @@ theorem ginv_step (g : Graph) (op : Op) (hG : GraphInv g) (ha : admissible g op 
     split
     · exact hG
     · exact ginv_withSlot_nattach hG (fun n => by split; rfl; split; rfl; split <;> rfl)
-  | deltagref slot t r => exact ginv_withSlot_nattach hG (fun n => by split <;> rfl)
+  | deltagref slot t r => exact ginv_withSlot_nattach hG (fun n => by split; rfl; split <;> rfl)
   | setattr slot vsref =>
     cases h1 : alook slot g.slots with
     | none =>
